@@ -96,6 +96,8 @@ type Factor struct {
 	Path  string
 	Index []int // field index chain from the root struct; nil when the root itself is the leaf
 	Alts  []Alt
+	// Variable marks slices and strings (the length-prefixed parts, where the codecs can differ most)
+	Variable bool
 }
 
 // Patterns for values nested inside slices.
@@ -595,7 +597,7 @@ func Factors(t reflect.Type) (fs []Factor, skipped []string) {
 		if path == "" {
 			path = "(root)"
 		}
-		fs = append(fs, Factor{Path: path, Index: index, Alts: leafAlts(t, tag, &skipped)})
+		fs = append(fs, Factor{Path: path, Index: index, Alts: leafAlts(t, tag, &skipped), Variable: t.Kind() == reflect.Slice || t.Kind() == reflect.String})
 	}
 	walk(t, Tag{}, nil, "")
 	return fs, skipped
